@@ -106,7 +106,9 @@ def _perform_decrypt(obj: EncryptionData, registry: JWERegistry) -> None:
         try:
             cek = decrypt_recipient(alg, enc, recipient, tag)
             cek_set.add(cek)
-        except (AssertionError, JoseError) as error:
+        except (AssertionError, JoseError, ValueError) as error:
+            # an entry for somebody else may not even be readable with this
+            # key (an OKP "epk" for an EC key raises ValueError)
             if registry.verify_all_recipients:
                 raise error
 
